@@ -3,6 +3,7 @@
   tools/c2lean.py) related to the hand-written models.  Only the facts that need induction live here.
 -/
 import XzVerif.Gen.Kernels
+import XzVerif.Lemmas.KernelsSlot
 import XzVerif.Model.Vli
 import XzVerif.Model.Container
 import XzVerif.Model.IndexSpec
@@ -51,5 +52,27 @@ theorem go_eq_aux : ∀ (f v i g : Nat), v < 128 ^ (f + 1) → f + 1 ≤ g →
       simp only [XzVerif.Index.vliSizeGo, XzVerif.Vli.vliSizeAux, hz, this, if_false]
       rw [ih (v / 128) (i + 1) g' hv' (by omega)]
       omega
+
+/-! ### `get_dist_slot` -/
+
+/-- `get_dist_slot` (table version of fastpos.h) is the bit-scan definition for every `uint32_t` distance. -/
+theorem get_dist_slot_eq (d : Nat) (h : d < 4294967296) : get_dist_slot d = XzVerif.Container.getDistSlot d := by
+  unfold get_dist_slot
+  by_cases h1 : d < 8192
+  · rw [if_pos h1]; exact fastpos_table d h1
+  · rw [if_neg h1]
+    by_cases h2 : d < 33554432
+    · rw [if_pos h2]
+      have hq : 2 ≤ d / 2 ^ 12 := by simp; omega
+      have ht := fastpos_table (d / 4096) (by omega)
+      have hl := fastpos_le (d / 4096) (by omega)
+      have e : (lzma_fastpos_at (d / 4096) + 24) % 4294967296 = lzma_fastpos_at (d / 4096) + 24 := Nat.mod_eq_of_lt (by omega)
+      rw [e, ht, container_slot_eq d (by omega), slotOf_div_pow d 12 hq, container_slot_eq (d / 4096) (by simpa using hq)]
+    · rw [if_neg h2]
+      have hq : 2 ≤ d / 2 ^ 24 := by simp; omega
+      have ht := fastpos_table (d / 16777216) (by omega)
+      have hl := fastpos_le (d / 16777216) (by omega)
+      have e : (lzma_fastpos_at (d / 16777216) + 48) % 4294967296 = lzma_fastpos_at (d / 16777216) + 48 := Nat.mod_eq_of_lt (by omega)
+      rw [e, ht, container_slot_eq d (by omega), slotOf_div_pow d 24 hq, container_slot_eq (d / 16777216) (by simpa using hq)]
 
 end XzVerif.KernelLemmas
